@@ -71,6 +71,9 @@ def evb_obligation(mode, prefix, final, cb=0, final_max=8, extra_defs=(), ndebug
     # loop bounds: payload copy loops run over at most everything stored (+ the final op), model loops are constant-bound
     copy = max(total + final_max, 24) + 2
     if fk in SEARCHERS: copy = total + 3          # byte scans/compares never look at more than the stored bytes (+ NUL of readln)
+    wlen = 1
+    for d in extra_defs:
+        if d.startswith("VP_WLEN="): wlen = int(d.split("=")[1])
     # freeing a multicast chain re-enters evbuffer_chain_free/evbuffer_decref_and_unlock_ once (parent chain, source buffer)
     # library chain walks: at most (chains the prefix can have created) + the final operation's own, + 1 for the exit test
     created = sum({"ADD": 1, "PREPEND": 1, "REF": 1, "EXPAND": 1, "RESERVE_COMMIT": 1, "RESERVE_COMMIT2": 2, "RESERVE_ONLY": 1, "ADD_IOVEC": 2, "MCAST": 2, "ADDBUFREF": 2}.get(k, 0) for _, k, _ in prefix)
@@ -82,7 +85,7 @@ def evb_obligation(mode, prefix, final, cb=0, final_max=8, extra_defs=(), ndebug
               desc="prefix [%s] then symbolic %s on %s%s%s" % (", ".join(pname(p) for p in prefix), fk, "AB"[ft],
                                                                  {0: "", 1: ", immediate callbacks", 2: ", deferred+NODEFER callbacks", 3: ", disabled + self-removing callbacks"}[cb], desc_extra),
               unwind=chain_unwind,
-              unwindset=evb_unwindset(copy, rec),
+              unwindset=evb_unwindset(copy, rec, search=(total, wlen) if fk in SEARCHERS else None),
               cbmc=["--max-field-sensitivity-array-size", str(VP_OBJ), "--object-bits", "10"],
               timeout=timeout, mem_gb=mem_gb, ndebug=ndebug)
     if solver is None and (nm in KISSAT_NAMES or any(k == "MCAST" for _, k, _ in prefix) or ((cb or ndebug) and fk in ("PULLUP", "EXPAND"))):
@@ -109,9 +112,22 @@ COPY_LOOPS = ["vp_memcpy.0", "vp_memmove.0", "vp_memmove.1", "vp_memchr.0", "vp_
 HARNESS_CHAIN_LOOPS = ["vp_evb_check.0", "vp_evb_nchains.0", "vp_evb_byte.0", "vp_evb_count_flag.0", "vp_run_deferred.0",
                        "event_deferred_cb_schedule_.0", "event_deferred_cb_cancel_.0"] + \
                       ["evbuffer_run_callbacks.%d" % i for i in range(4)] + ["evbuffer_remove_all_callbacks.%d" % i for i in range(3)]      # own concrete counters (<= 6 chains / 3 slots)
-def evb_unwindset(copy, rec=1):
-    return (["%s:8" % l for l in HARNESS_CHAIN_LOOPS] +["evbuffer_chain_free:%d" % rec, "evbuffer_decref_and_unlock_:%d" % rec, "evbuffer_file_segment_free:1"] +
-            ["%s:%d" % (l, 130) for l in MODEL_LOOPS] + ["%s:%d" % (l, copy) for l in COPY_LOOPS] + ["%s:%d" % (l, 5 if l.startswith("evbuffer_ptr_memcmp") else 12) for l in SEARCH_LOOPS])
+def evb_unwindset(copy, rec=1, search=None):
+    """search = (stored bytes, needle length) for the reduced search obligations: tight per-loop bounds (each extra
+    unwinding of a byte scan over a symbolic chain offset costs a 160-way mux per byte)"""
+    def bound(l):
+        if l == "vp_memcpy.0": return max(copy, 26)
+        if search:
+            L, w = search
+            if l == "vp_memcmp.0": return w + 1
+            return L + 2
+        return copy
+    sl = 12
+    if search: sl = search[0] + 4
+    return (["%s:8" % l for l in HARNESS_CHAIN_LOOPS] +
+            ["evbuffer_chain_free:%d" % rec, "evbuffer_decref_and_unlock_:%d" % rec, "evbuffer_file_segment_free:1"] +
+            ["%s:%d" % (l, 130) for l in MODEL_LOOPS] + ["%s:%d" % (l, bound(l)) for l in COPY_LOOPS] +
+            ["%s:%d" % (l, 5 if l.startswith("evbuffer_ptr_memcmp") else sl) for l in SEARCH_LOOPS])
 
 # ---------------------------------------------------------------------------------------------------------------
 # enumeration of prefixes x final operations
